@@ -19,6 +19,7 @@ r3 = load_tsv("RESULTS_round3.tsv")
 r4 = load_tsv("RESULTS_round4.tsv")
 r5 = load_tsv("RESULTS_round5.tsv")
 r6 = load_tsv("RESULTS_round6.tsv")
+r7 = load_tsv("RESULTS_round7.tsv")
 def verdict(rs, own):
     mine = [x for x in rs if x["check"] == own]
     if not mine: return "not run"
@@ -38,10 +39,10 @@ for d in sorted(glob.glob(os.path.join(ROOT, "seeded", "C??-*")), key=lambda x: 
     files = sorted(set(re.findall(r"^\+\+\+ b/(\S+)", open(d + "/patch.diff").read(), re.M)))
     old = json.load(open(d + "/meta.json")) if os.path.exists(d + "/meta.json") else {}
     n = int(id.split("-")[1])
-    rnd = 6 if n >= 11 else 5 if n >= 9 else (4 if n >= 7 else (3 if n >= 5 else (2 if n >= 3 else 1)))
-    first = old.get("checks_run", {}).get("first_round") if rnd == 1 else verdict({2: r2, 3: r3, 4: r4, 5: r5, 6: r6}[rnd].get(id, []), id.split("-")[0])
+    rnd = 7 if n >= 13 else 6 if n >= 11 else 5 if n >= 9 else (4 if n >= 7 else (3 if n >= 5 else (2 if n >= 3 else 1)))
+    first = old.get("checks_run", {}).get("first_round") if rnd == 1 else verdict({2: r2, 3: r3, 4: r4, 5: r5, 6: r6, 7: r7}[rnd].get(id, []), id.split("-")[0])
     meta = {"id": id, "property": id.split("-")[0], "round": rnd, "title": title, "files_touched": files,
-            "origin": "written by an independent sub-agent that was given only the property text and a scratch git worktree of /repo (nothing from /verif)" + ("; second round, after the checks had been strengthened against the first 40" if rnd == 2 else ("; third round, after two rounds of strengthening" if rnd == 3 else ("; fourth round, after three rounds of strengthening" if rnd == 4 else ("; fifth round, after four rounds of strengthening" if rnd == 5 else ("; sixth round, after five rounds of strengthening" if rnd == 6 else ""))))),
+            "origin": "written by an independent sub-agent that was given only the property text and a scratch git worktree of /repo (nothing from /verif)" + ("; second round, after the checks had been strengthened against the first 40" if rnd == 2 else ("; third round, after two rounds of strengthening" if rnd == 3 else ("; fourth round, after three rounds of strengthening" if rnd == 4 else ("; fifth round, after four rounds of strengthening" if rnd == 5 else ("; sixth round, after five rounds of strengthening" if rnd == 6 else ("; seventh round (one change per property), after six rounds of strengthening" if rnd == 7 else "")))))),
             "change": sec("Change"), "what_goes_wrong": sec("What goes wrong"),
             "needs_to_manifest": sec("Needs in order to manifest") or sec("Needs, in order to manifest") or sec("Needed to manifest") or sec("Needs"),
             "why_tests_miss": sec("Why the existing tests do not notice") or sec("Why the tests do not notice"),
